@@ -359,4 +359,177 @@ theorem C17_disjunction_as_options_same_target (idx : Int) (ss : Schemas) (o : O
         simp only [ht] at h
         exact disjunctionOnTarget_paths ss o idx.toNat target out (by simpa using h)
 
+
+/-! ## well-typedness is preserved -/
+
+/-- every simple builder rule (`omit`, `rename`, `properties`, `add_factory`, `duplicate`) preserves
+    the well-typedness of the builder set, for every selector and parameterisation -/
+theorem C17_builder_rule_preserves (pkg : String) (ss : Schemas) (bs bs' : Builders) (r : BRule)
+    (hs : r.simple = true) (h : applyBRule pkg ss bs r = .ok bs') (hw : WTs ss bs = true) : WTs ss bs' = true :=
+  simple_brule_preserves pkg ss bs bs' r hs h hw
+
+/-- every simple option rule (`omit`, `rename`, `add_comments`, `duplicate`), applied the way the
+    rewriter applies it — to every option of every builder, behind its selector — preserves it -/
+theorem C17_option_rule_preserves (ss : Schemas) (sel : OSelC) (r : ORule) (hs : r.simple = true)
+    (st st' : St) (h : applyORule ss sel r st = .ok st') (hw : WTs ss st.builders = true) :
+    WTs ss st'.builders = true :=
+  applyORule_preserves ss sel r (fun b o out ho ha => simple_action_spec ss b b.for_.ty o r out hs ho ha) st st' h hw
+
+/-- all files' rules are of the kinds for which preservation is proved -/
+def simpleFiles (files : List VFile) : Bool :=
+  files.all fun f => f.builders.all BRule.simple && f.options.all ORule.simple
+
+/-- **Sequences.** Load any rule files whose rules are simple, apply `Rewriter.ApplyTo` (rules common to
+    all languages, then the language's own; builder rules before option rules; dismissal of
+    option-less builders after each option pass): a well-typed builder set stays well-typed.
+    Induction over the rule lists in the rewriter's order. -/
+theorem C17_seq (files : List VFile) (language : String) (ss : Schemas) (bs bs' : Builders) (n : Nat)
+    (hsimple : simpleFiles files = true) (h : rewrite files language ss bs n = .ok bs')
+    (hw : WTs ss bs = true) : WTs ss bs' = true := by
+  simp only [rewrite] at h
+  cases hl : loadFiles files with
+  | err e => simp [hl] at h
+  | panic s => simp [hl] at h
+  | ok l =>
+    simp only [hl] at h
+    obtain ⟨hbm, hom⟩ := loadFiles_mem files l hl
+    have hfiles := List.all_eq_true.1 hsimple
+    have hbs : ∀ lang, ∀ r ∈ l.bFor lang, r.2.simple = true := by
+      intro lang r hr
+      simp only [Loaded.bFor, List.mem_map, List.mem_filter] at hr
+      obtain ⟨x, ⟨hx, _⟩, rfl⟩ := hr
+      obtain ⟨f, hf, hxf⟩ := hbm x hx
+      have := hfiles f hf
+      simp only [Bool.and_eq_true, List.all_eq_true] at this
+      exact this.1 _ hxf
+    have hos : ∀ lang, ∀ r ∈ l.oFor lang, r.2.simple = true := by
+      intro lang r hr
+      simp only [Loaded.oFor, List.mem_map, List.mem_filter] at hr
+      obtain ⟨x, ⟨hx, _⟩, rfl⟩ := hr
+      obtain ⟨f, hf, hxf⟩ := hom x hx
+      have := hfiles f hf
+      simp only [Bool.and_eq_true, List.all_eq_true] at this
+      exact this.2 _ hxf
+    have hlang : ∀ lang st st', applyLanguage ss l lang st = .ok st' → WTs ss st.builders = true → WTs ss st'.builders = true := by
+      intro lang st st' hh hww
+      simp only [applyLanguage] at hh
+      cases hb : applyBRules ss (l.bFor lang) st with
+      | err e => simp [hb] at hh
+      | panic s => simp [hb] at hh
+      | ok st1 =>
+        simp only [hb] at hh
+        exact applyORules_preserves ss _ st1 st' (hos lang) hh (applyBRules_preserves ss _ st st1 (hbs lang) hb hww)
+    cases ha : applyTo ss l language (St.renumber bs n) with
+    | err e => simp [ha] at h
+    | panic s => simp [ha] at h
+    | ok st' =>
+      simp [ha] at h; subst h
+      simp only [applyTo] at ha
+      cases h1 : applyLanguage ss l "all" (St.renumber bs n) with
+      | err e => simp [h1] at ha
+      | panic s => simp [h1] at ha
+      | ok st1 =>
+        simp only [h1] at ha
+        exact hlang language st1 st' ha (hlang "all" _ st1 h1 (by rw [WTs_renumber]; exact hw))
+
+example : simpleFiles wDupBuilder.files = true := by decide
+
+/-- the property at full strength: *any* rule files -/
+def C17_seq_full : Prop :=
+  ∀ (files : List VFile) (language : String) (ss : Schemas) (bs bs' : Builders) (n : Nat),
+    rewrite files language ss bs n = .ok bs' → WTs ss bs = true → WTs ss bs' = true
+
+/-- `rename_arguments` on an option whose assignment carries a constraint: the constraint keeps the
+    old argument name (witness `wRenameArgs`, replayed on the real code by the check) -/
+theorem C17_seq_counterexample : ¬ C17_seq_full := by
+  intro hfull
+  let w := wRenameArgs
+  let bs₀ := getOk (fromAST w.ss)
+  let bs' := getOk (rewrite w.files w.lang w.ss bs₀ 1)
+  have h1 : rewrite w.files w.lang w.ss bs₀ 1 = .ok bs' := eq_ok_getOk _ (by decide)
+  have h2 : WTs w.ss bs₀ = true := by decide
+  have h3 : WTs w.ss bs' = false := by decide
+  have := hfull w.files w.lang w.ss bs₀ bs' 1 h1 h2
+  rw [h3] at this
+  exact absurd this (by simp)
+
+/-- more witnesses of the same failure, each a different mechanism (all replayed on the real code):
+    a store through the `*Argument` a promoted constructor assignment shares; an index argument that
+    `unfold_boolean` no longer declares -/
+theorem C17_seq_counterexample_shared_pointer :
+    (WTs wPromoteAppend.ss (getOk (fromAST wPromoteAppend.ss)) = true) ∧
+    isOk wPromoteAppend.run = true ∧ WTs wPromoteAppend.ss (getOk wPromoteAppend.run) = false := by decide
+
+theorem C17_seq_counterexample_unfold_after_index :
+    (WTs wMapIndexUnfold.ss (getOk (fromAST wMapIndexUnfold.ss)) = true) ∧
+    isOk wMapIndexUnfold.run = true ∧ WTs wMapIndexUnfold.ss (getOk wMapIndexUnfold.run) = false := by decide
+
+/-! ## frame at the level of the whole rewriter -/
+
+/-- the property at full strength for the smallest case — no rule at all: nothing changes -/
+def C17_frame_norules_full : Prop :=
+  ∀ (language : String) (ss : Schemas) (bs bs' : Builders) (n : Nat),
+    rewrite [] language ss bs n = .ok bs' → bs'.map Builder.content = bs.map Builder.content
+
+/-- what holds: with no rules the result is the builders that have at least one option, in order,
+    with unchanged content; hence nothing changes when every builder has an option -/
+theorem C17_frame_norules_partial (language : String) (ss : Schemas) (bs bs' : Builders) (n : Nat)
+    (h : rewrite [] language ss bs n = .ok bs') :
+    bs'.map Builder.content = (bs.filter fun b => !b.options.isEmpty).map Builder.content ∧
+    ((∀ b ∈ bs, b.options ≠ []) → bs'.map Builder.content = bs.map Builder.content) := by
+  have hres : bs' = ((St.renumber bs n).builders.filter fun b => !b.options.isEmpty) := by
+    simp [rewrite, loadFiles, applyTo, applyLanguage, Loaded.bFor, Loaded.oFor, applyBRules, applyORules] at h
+    exact h.symm
+  have hcont := numberBuilders_content bs n
+  have hfil : ∀ (l l' : Builders), l'.map Builder.content = l.map Builder.content →
+      (l'.filter fun b => !b.options.isEmpty).map Builder.content = (l.filter fun b => !b.options.isEmpty).map Builder.content := by
+    intro l
+    induction l with
+    | nil => intro l' hh; cases l' <;> simp_all
+    | cons a l ih =>
+      intro l' hh
+      cases l' with
+      | nil => simp at hh
+      | cons a' l' =>
+        simp only [List.map_cons, List.cons.injEq] at hh
+        have he : a'.options.isEmpty = a.options.isEmpty := by
+          have := congrArg (fun x : Builder => x.options.isEmpty) hh.1
+          simpa [Builder.content] using this
+        simp only [List.filter, he]
+        cases a.options.isEmpty <;> simp [hh.1, ih l' hh.2]
+  have h1 : bs'.map Builder.content = (bs.filter fun b => !b.options.isEmpty).map Builder.content := by
+    rw [hres]
+    exact hfil bs _ hcont
+  refine ⟨h1, fun hne => ?_⟩
+  rw [h1]
+  congr 1
+  apply List.filter_eq_self.2
+  intro b hb
+  have := hne b hb
+  cases hbo : b.options with
+  | nil => exact absurd hbo this
+  | cons o os => simp
+
+/-- an empty struct's builder has no option: it is dismissed although no rule exists (witness `wDismissed`) -/
+theorem C17_frame_norules_counterexample : ¬ C17_frame_norules_full := by
+  intro hfull
+  let w := wDismissed
+  let bs₀ := getOk (fromAST w.ss)
+  let bs' := getOk (rewrite [] w.lang w.ss bs₀ 1)
+  have h1 : rewrite [] w.lang w.ss bs₀ 1 = .ok bs' := eq_ok_getOk _ (by decide)
+  have hlen : bs'.length ≠ bs₀.length := by decide
+  have := congrArg List.length (hfull w.lang w.ss bs₀ bs' 1 h1)
+  simp at this
+  exact hlen this
+
+/-- an option rule changes a builder it did not select: after `merge_into`, `rename_arguments` on the
+    merged option also renames the argument of the *source* builder's option, through the shared
+    `Args` array and `*Argument` (witness `wMergeRename`; `D.x` names options of builder `D` only) -/
+theorem C17_frame_counterexample_shared_pointer :
+    isOk wMergeRename.run = true ∧
+    ((getOk wMergeRename.run).filter fun b => b.name == "I").map (fun b => b.options.map fun o => o.args.map (·.name))
+      = [[["y"]]] ∧
+    ((getOk (fromAST wMergeRename.ss)).filter fun b => b.name == "I").map (fun b => b.options.map fun o => o.args.map (·.name))
+      = [[["x"]]] := by decide
+
 end Cog.Builder
